@@ -366,7 +366,16 @@ func genC16(t *rapid.T) any {
 			}
 			ph(nargs + rapid.IntRange(1, 3).Draw(t, "beyond"))
 		case "unused":
-			c.Args = append(c.Args, genC16Arg(t, "unusedarg"))
+			// the argument nobody refers to sits anywhere in the list: at the end, or in a gap of the
+			// placeholder numbering ($1 .. $3 with three arguments)
+			g := rapid.IntRange(1, nargs+1).Draw(t, "unusedpos")
+			extra := genC16Arg(t, "unusedarg")
+			c.Args = append(c.Args[:g-1:g-1], append([]C16Arg{extra}, c.Args[g-1:]...)...)
+			for i := range c.Segs {
+				if c.Segs[i].K == "p" && c.Segs[i].N >= g {
+					c.Segs[i].N++
+				}
+			}
 		case "zero":
 			text(" AND age = ")
 			if !strings.Contains(c.template(), " WHERE ") {
@@ -453,6 +462,9 @@ func checkC16(c *C16Case) Result {
 	case "err":
 		res.NonTrivial = true
 		res.Labels = append(res.Labels, "err:"+c.Err)
+		if c.Err == "unused" && c.maxPlaceholder() == len(c.Args) {
+			res.Labels = append(res.Labels, "err:unused-in-numbering-gap")
+		}
 		if err == nil {
 			res.Violation = fmt.Sprintf("SanitizeSQL(%q, %s): expected an error (%s argument/placeholder), got %q", tmpl, val.JSON(args), c.Err, s)
 		}
@@ -553,4 +565,15 @@ func init() {
 		Quick:       6000,
 		Thorough:    400000,
 	})
+}
+
+// maxPlaceholder is the highest placeholder number the template refers to.
+func (c *C16Case) maxPlaceholder() int {
+	m := 0
+	for _, s := range c.Segs {
+		if s.K == "p" && s.N > m {
+			m = s.N
+		}
+	}
+	return m
 }
